@@ -1,7 +1,7 @@
 """C18 - get_last, get_next and get_new implement a gap-free version workflow"""
-from ..rules import exc, versions, memo
+from ..rules import search, exc, versions, memo
 
-DECIDES = ("the formatter's output shape (prefix + zero-padded width) equals the configured {version} pattern's concrete language, parse and format use one prefix, increment is 1, no overflow guard cuts off a representable version (R-FMT); 'next.<key>' is routed to NextGetter (R-ROUTE); get_last = find_one of self with key '>' and the failsafe; get_new takes the successor of exactly the last existing version, else the first version; every return is a rebuilt Sid or the empty Sid (R-GETNEW); nothing raises for key 'version' (R-EXC); no result is remembered between calls (R-NOSTATE, R-PUREMEMO).")
+DECIDES = ("the formatter's output shape (prefix + zero-padded width) equals the configured {version} pattern's concrete language, parse and format use one prefix, increment is 1, no overflow guard cuts off a representable version (R-FMT); 'next.<key>' is routed to NextGetter (R-ROUTE); get_last = find_one of self with key '>' and the failsafe; get_new takes the successor of exactly the last existing version, else the first version; every return is a rebuilt Sid or the empty Sid (R-GETNEW); nothing raises for key 'version' (R-EXC); no result is remembered between calls (R-NOSTATE, R-PUREMEMO). Found paths are resolved as found (R-SKIPS: no resolve / realpath / normpath on the way).")
 DOES_NOT_DECIDE = 'arithmetic on actual version sets, strict monotonicity over histories'
 
 
@@ -13,4 +13,5 @@ def rules(ctx, tier):
         lambda: versions.rule_getnew(ctx),
         lambda: memo.rule_nostate(ctx),
         lambda: memo.rule_purememo(ctx),
+        lambda: search.rule_skips(ctx),
     ]
